@@ -10,15 +10,16 @@ CONFIG = {
                   "and is established, exactly as the attempt made alone), proved in Lean for every option set, every "
                   "well-formed host:port, every upstream kind and every x509 oracle, over an executable model of "
                   "cert.go, startTls, the upstream kinds and the UDP key derivation whose decisive shapes (guard "
-                  "polarity, InsecureSkipVerify sites, ServerName expressions, pbkdf2 argument lists, whether GetTlsConfig hands out "
+                  "polarity, InsecureSkipVerify sites, the inventory of every site that sets a verification-affecting tls.Config field incl. Time / Verify* callbacks, ServerName expressions, pbkdf2 argument lists, whether GetTlsConfig hands out "
                   "a new *tls.Config per call) are regenerated from the source on every run; the model is tied to the code by comparing every "
                   "field of the real tls.Config on enumerated option classes by an end-to-end certificate "
                   "matrix on the real servers/upstreams, and by multi-attempt histories (real Upstreams fail-over walk, "
                   "connect/disconnect/connect, mixed upstream kinds) through one real cert.ClientConfig.",
     "level_note": "Partial on crypto: crypto/tls and crypto/x509 (chain building, expiry, name matching, the meaning "
                   "of InsecureSkipVerify and ClientAuth) are a universally quantified contract record in the "
-                  "theorems, exercised but not verified by the matrix (5 server certificates x 3 client "
-                  "certificates from a harness PKI).  Carriers driven end to end: StartTLS over an in-memory duplex "
+                  "theorems, exercised but not verified by the matrix (9 server certificate classes x 8 client "
+                  "certificate classes from a harness PKI, incl. validity-boundary certificates signed at the moment of use: "
+                  "expired 60 s / 1 s ago, valid only from 120 s on, issued 60 s ago).  Carriers driven end to end: StartTLS over an in-memory duplex "
                   "and over TCP, TLS socket, stdio+tls, (thorough) StartTLS over UDP/kcp, HTTPS websocket, StartTLS "
                   "over websocket; the DNS carrier is covered only through the shared code (same ClientConfig, same "
                   "startTls) and the regenerated host argument of its NewClientConnection call.  UDP secret: both ends are proved to derive the "
@@ -35,17 +36,19 @@ CONFIG = {
             "configurations (cert file 5 x cert 4 x key file 6 x key 7 x password 3 x CA file 6 x CA 7 classes, both "
             "flags, 3 kinds), all pairs key x password, key file x key, CA file x CA, cert file x cert, plus 1500 "
             "(quick) / 20000 (thorough) random combinations, comparing certificate count, both pools by CA identity, "
-            "InsecureSkipVerify, ClientAuth, ServerName, error class or panic; the ServerName the real startTls "
+            "InsecureSkipVerify, ClientAuth, ServerName, the remaining verification knobs (Time, VerifyPeerCertificate, VerifyConnection, "
+            "GetConfigForClient), error class or panic; the ServerName the real startTls "
             "carries into crypto/tls for 49+ host strings (host:port, IPv6 brackets, malformed); the real "
             "ConnectPacket/StartupPacket with absent / empty / 12 passwords.  authmatrix: per carrier {pipe, tcp, "
             "tcp+tls, stdin+tls (+udp, wss, ws thorough)} x host x server certificate {good, nameonly, wronghost, untrusted, "
-            "expired} x insecure x client certificate {none, good CA, foreign CA} x require-client-cert, full with "
+            "expired, exp1m, exp1s, notyet, fresh} x insecure x client certificate {none, good CA, foreign CA, expired, exp1m, exp1s, notyet, fresh} "
+            "x require-client-cert (boundary server classes with client {none, good, exp1m}, boundary client classes with server {good, fresh}), full with "
             "both CAs configured, CA-absent variants sampled 1/4 (quick) or full (thorough); a cell is established "
             "iff 16 bytes make the round trip to a TCP echo target behind a server channel; refused cells must "
             "deliver 0 bytes.  tlshist: histories of 2-6 attempts {pipe, tcp, tcp+tls, stdin+tls (+wss thorough)} x host x "
-            "server {dead, good, nameonly, iponly, wronghost, untrusted, expired} through ONE cert.ClientConfig, as a "
+            "server {dead, good, nameonly, iponly, wronghost, untrusted, expired, exp1m, exp1s, notyet, fresh} through ONE cert.ClientConfig, as a "
             "fail-over walk (one Upstreams.Connect over the list) and as connect/disconnect/connect; every ordered pair "
-            "of 20 (quick) / 38 (thorough) attempt kinds in both modes plus 150 / 1500 random longer histories with "
+            "of 24 (quick) / 52 (thorough) attempt kinds in both modes plus 150 / 1500 random longer histories with "
             "random options; per attempt established|refused|skipped and the ServerName / InsecureSkipVerify of the "
             "config the attempt handed to crypto/tls are compared with the model; monitor = the property per attempt "
             "for THIS upstream's host name.  non-trivial = the config loaded / the session was established; distinct = distinct op line",
